@@ -38,6 +38,19 @@ example :
       .recv ⟨4, 4, 100, 2, 7, 504⟩, .tick]).1 = .timeout := by
   decide
 
+/-- **stale_listener_counts**: before the repair of `listen` (previous receiver not closed): attempt 1
+    = {1,2,3} fails before `waitUntilAllDone`; attempt 2 = {1,2,4} listens; the late confirmations
+    of members 1, 2, 4 *for attempt 1* are recorded by the stale listener and complete attempt 2:
+    a signature is reported for attempt 2 that nobody confirmed for attempt 2.  (Under the repaired
+    code the same messages are rejected: second part.) -/
+theorem stale_listener_counts :
+    let a1 : Params := ⟨[1, 2, 3, 4], [1, 2, 3], 5, 1, 600⟩
+    let a2 : Params := ⟨[1, 2, 3, 4], [1, 2, 4], 5, 2, 700⟩
+    let late : List Msg := [⟨1, 1, 5, 1, 7, 500⟩, ⟨2, 2, 5, 1, 7, 510⟩, ⟨4, 4, 5, 1, 7, 520⟩]
+    check .fixed a2 (late.foldl (receiveStale a1 a2) []) = some (.success 7 520) ∧
+    (scenario .fixed a2 late []).1 = .timeout := by
+  decide
+
 /-! ## Invariant of the recorded confirmations -/
 
 structure Inv (v : Variant) (p : Params) (evs : List Ev) (done : Done) : Prop where
